@@ -41,8 +41,10 @@ ASSUMPTIONS = [
 ENTRIES = [["ir", "fn"], ["proto", "fn"], ["ir", "pass"], ["ir", "torch29"]]
 FALLBACKS = [None, False, True]
 
-QUICK_PAIRS = [(18, 18), (18, 19), (18, 25), (19, 19), (19, 20), (19, 21), (19, 25), (20, 20), (20, 21), (20, 25),
-               (21, 22), (21, 25), (20, 19), (21, 20), (25, 18), (23, 21)]
+# quick: t-s in {0, 1, max} for the sources that still have adapters ahead of them, the two exact boundary
+# crossings in both directions, one non-crossing down pair and the full-range down pair
+QUICK_PAIRS = [(18, 18), (18, 19), (18, 25), (19, 20), (19, 21), (20, 20), (20, 21), (20, 25),
+               (21, 25), (20, 19), (21, 20), (25, 18), (23, 21)]
 ALL_PAIRS = [(s, t) for s in range(18, 26) for t in range(18, 26)]
 BOUND = {"quick": 2, "thorough": 3}
 
